@@ -570,6 +570,9 @@ class NotAnException(BaseException):
 
 def fail_import(modname, where):
     """raise what world.json says this module raises at import time / inside test_suite()"""
+    if where == "import" and WORLD["modules"][modname].get("needsHelper"):
+        # code the tests use that is importable only through the path the wrapper script added
+        import whelper  # noqa: F401
     kind = WORLD["modules"][modname].get("importError")
     if not kind:
         return
